@@ -202,6 +202,11 @@ def on_every_path(f, blk):
 
 def run(ctx):
     core = ctx.core("on")
+    # "at least one, and all violated rules": no error of the options layer is thrown away on the way
+    # (dropped values, discarding adapters, a Result used as an iterator)
+    from vlib import scan as _scan
+    opt_bodies = [b for b in ctx.all_bodies(core) if "/options/" in b.file and not _scan.is_test_body(b) and not b.derived]
+    common.error_discipline(ctx, "C10.D", opt_bodies)
     for chain, opts in CHAINS.items():
         f = ctx.fn(PN % chain)
         if not f:
